@@ -47,12 +47,17 @@ class C18(Prop):
 
     @property
     def gens(self):
+        from .props_cross import _sample
         out = [gen_c18]
-        # the model-backed iterator histories of the module slices (Rich records, …)
-        for pid in ("C16", "C14", "C20"):
+        # the model-backed streams of the module slices whose answers are produced by iterating:
+        # Rich record histories, relocation blocks, strings, and the `dump` operations of the debug
+        # (POGO records), import and export directories — there the items themselves are checked
+        # against the model, which the in-harness deque (built from the same iterator) cannot do
+        for pid in ("C16", "C14", "C20", "C15", "C09", "C08"):
             p = REGISTRY.get(pid)
             if p:
-                out += [g for g in p.gens if "iter" in g.__name__ or pid in ("C14", "C20")]
+                gs = [g for g in p.gens if "iter" in g.__name__] if pid == "C16" else list(p.gens)
+                out += [g if pid in ("C16", "C14", "C20") else _sample(g, 150, 3000) for g in gs]
         return out
 
     def judge(self, op, impl, model, spec):
@@ -127,10 +132,24 @@ class C19(Prop):
     pid = "C19"
     title = "wrappers and JSON"
     thm_modules = ["PeliteModel.Thm.C19"]
-    gens = [gen_c19]
+
+    @property
+    def gens(self):
+        from .props_cross import _sample
+        # constructor selection on the header boundary images of C07, and the wrapper-capable
+        # operations of every directory module (their generators issue them through wf / wv as well
+        # as through the format-specific constructors; the answers are compared with the model of
+        # the selected format and with each other)
+        out = [gen_c19, _sample(gen_img.gen_c07_boundaries, 400, 4000), _sample(gen_img.gen_c07, 100, 2000)]
+        for pid in ("C08", "C09", "C15", "C10", "C12", "C16"):
+            p = REGISTRY.get(pid)
+            if p:
+                out += [_sample(g, 120, 2500) for g in p.gens]
+        return out
 
     def begin_case(self, case):
         self.seen = {}
+        self.ctor = {}
 
     def judge(self, op, impl, model, spec):
         w = op.split(" ")
@@ -144,6 +163,20 @@ class C19(Prop):
         r = Prop.judge(self, op, impl, model, spec)
         if r:
             return r
+        if fam == "from_bytes" and len(w) == 2:
+            # selection: the wrapper accepts with format b iff the parser of format b accepts
+            self.ctor = getattr(self, "ctor", {})
+            self.ctor[w[1]] = impl
+            for kw, kind in (("wf", "f"), ("wv", "v")):
+                a = self.ctor.get(kw)
+                if a is None:
+                    continue
+                for b in ("32", "64"):
+                    sp = self.ctor.get(kind + b)
+                    if sp is None:
+                        continue
+                    if (a == "ok " + b) != (sp == "ok " + b) and not (a.startswith("ok") and a != "ok " + b):
+                        return {"kind": "spec", "text": "agnostic constructor %s answered %s but the %s-bit parser answered %s" % (kw, a, b, sp)}
         # wrapper vs specific API on the same image, same arguments
         if len(w) >= 2 and fam in WRAP_FAMS:
             k = w[1]
